@@ -7,6 +7,7 @@ import (
 	"errors"
 	"fmt"
 	"io"
+	"strings"
 
 	"nhooyr.io/websocket"
 	"nhooyr.io/websocket/wsjson"
@@ -88,6 +89,15 @@ type c04Spec struct {
 	JSON    bool // every message is a JSON text: wsjson.Read is exercised
 	NetConn int  // message type if all messages have the same one (NetConn is exercised), else 0
 	Build   func(b *c04Builder)
+}
+
+// c04BigSpecs: messages whose frames are larger than the library's 4096-byte buffers.
+var c04BigSpecs = []c04Spec{
+	{Name: "binary-big", Comp: "off", NetConn: frame.OpBinary, Build: func(b *c04Builder) {
+		b.begin(frame.OpBinary, false, c04Noise(9000, 1)).rest()
+		b.begin(frame.OpBinary, false, c04Noise(10000, 2)).part(5000).rest()
+		b.begin(frame.OpBinary, false, []byte("after")).rest()
+	}},
 }
 
 func c04Text(n int, seed byte) []byte {
@@ -346,7 +356,7 @@ func (s *c04Stream) at(k int) c04Pos {
 
 // ---------------------------------------------------------------- cases ---
 
-var c04Terms = []string{"eof", "unexpected-eof", "boom", "eof-with-data"}
+var c04Terms = []string{"eof", "unexpected-eof", "boom", "eof-with-data", "boom-with-data"}
 
 var errC04Boom = errors.New("boom")
 
@@ -387,6 +397,10 @@ func c04Script(s *c04Stream, cs c04Case) *xportScript {
 	case "boom":
 		sc.EndErr = errC04Boom
 	case "eof-with-data":
+		sc.EndWithData = true
+	case "boom-with-data":
+		// a transport that reports its failure together with the last bytes it got (crypto/tls does)
+		sc.EndErr = errC04Boom
 		sc.EndWithData = true
 	}
 	return sc
@@ -677,7 +691,7 @@ func c04Run(c *fw.Ctx, shard, nshards int) {
 			}
 			for k := 0; k <= len(s.bytes); k++ {
 				for _, term := range c04Terms {
-					if term == "eof-with-data" && k == 0 {
+					if strings.HasSuffix(term, "-with-data") && k == 0 {
 						continue
 					}
 					base := c04Case{Stream: spec.Name, Client: client, Cut: k, Term: term}
@@ -721,6 +735,61 @@ func c04Run(c *fw.Ctx, shard, nshards int) {
 			}
 		}
 	}
+	// streams with frames larger than every internal buffer: the library's reads go straight to the
+	// transport there (a buffered reader passes a large read through, together with whatever
+	// error the transport reports in the same call). Cuts around every frame boundary and header
+	// end and every 499th byte; caller buffers at and above the library's read buffer size.
+	for _, spec := range c04BigSpecs {
+		for _, client := range []bool{true, false} {
+			s, err := c04BuildStream(spec, client)
+			if err != nil {
+				c.EngineError(err.Error())
+				return
+			}
+			cuts := map[int]bool{}
+			fs, _ := frame.ParseAll(s.bytes)
+			for _, f := range fs {
+				for _, b := range []int{f.Offset, f.Offset + f.HeaderLen, f.Offset + f.HeaderLen + len(f.Payload)} {
+					for d := -2; d <= 2; d++ {
+						if b+d >= 0 && b+d <= len(s.bytes) {
+							cuts[b+d] = true
+						}
+					}
+				}
+			}
+			for k := 0; k <= len(s.bytes); k += 499 {
+				cuts[k] = true
+			}
+			for k := 0; k <= len(s.bytes); k++ {
+				if !cuts[k] {
+					continue
+				}
+				for _, term := range c04Terms {
+					if strings.HasSuffix(term, "-with-data") && k == 0 {
+						continue
+					}
+					base := c04Case{Stream: spec.Name, Client: client, Cut: k, Term: term}
+					for _, buf := range []int{100, 4096, 16384, 0} {
+						cs := base
+						cs.API, cs.Buf = c04APIReader, buf
+						if !run(s, cs) {
+							return
+						}
+						cs.API = c04APINetConn
+						if !run(s, cs) {
+							return
+						}
+					}
+					cs := base
+					cs.API = c04APIRead
+					if !run(s, cs) {
+						return
+					}
+				}
+			}
+		}
+	}
+	c.Bound("big_streams", len(c04BigSpecs))
 	c.Bound("streams", c04NumStreams(c.Tier))
 	c.Bound("stream_lengths", lens)
 	c.Bound("terminations", c04Terms)
@@ -739,7 +808,7 @@ func c04Replay(c *fw.Ctx, data json.RawMessage) {
 		c.EngineError("bad replay data")
 		return
 	}
-	for _, spec := range c04Specs {
+	for _, spec := range append(append([]c04Spec(nil), c04Specs...), c04BigSpecs...) {
 		if spec.Name == cs.Stream {
 			s, err := c04BuildStream(spec, cs.Client)
 			if err != nil {
